@@ -5,7 +5,7 @@
 From XcpModel Require Import Base Backup Paths Walker.
 From XcpProofs Require Import WalkerProofs.
 From XcpModel Require Import Extracted.
-From XcpProofs Require Import ExtractedOk.
+From XcpProofs Require Import XConfig.
 From Coq Require Import String.
 
 (* no link operation is ever emitted when dereferencing *)
@@ -57,3 +57,20 @@ Print Assumptions C13_deref_dangling_cyclic_fail.
 Print Assumptions C13_deref_image.
 Print Assumptions C13_walk_processes_image.
 Print Assumptions C13_src_walk_follows_links_iff_deref.
+
+(* ---- further glue on this property's path, pinned token for token (an edit re-opens the obligation; the run then
+   looks for a failing input) ---- *)
+From XcpPins Require Import Pin_main_expand_sources Pin_main_main.
+From XcpProofs Require Import PinnedSource.
+Theorem C13_src_pin_main_expand_sources : pin_unchanged name_main_expand_sources.
+Proof. exact pin_main_expand_sources. Qed.
+Theorem C13_src_pin_main_main : pin_unchanged name_main_main.
+Proof. exact pin_main_main. Qed.
+(* Config::from(&Opts) is one struct literal with no `..default` tail, and every option other than the worker count
+   and the block size reaches the library unchanged under its own name *)
+Theorem C13_src_options_reach_config : forall f e, List.In (f, e) x_config_fields ->
+  f <> "workers"%string -> f <> "block_size"%string -> e = ("opts." ++ f)%string.
+Proof. exact x_config_fields_plain. Qed.
+Print Assumptions C13_src_options_reach_config.
+Print Assumptions C13_src_pin_main_expand_sources.
+Print Assumptions C13_src_pin_main_main.
